@@ -68,3 +68,55 @@ Example rc_defer_with_async_unsafe :
   rc_site_safe [RcIf [RcAcquire; RcDefer] false; RcIf [RcAsync] true; RcIf [RcClose] true; RcJoin] = false /\
   In [RcAcquire; RcDefer; RcAsync] (rc_paths [RcIf [RcAcquire; RcDefer] false; RcIf [RcAsync] true; RcIf [RcClose] true; RcJoin]).
 Proof. split; vm_compute; tauto. Qed.
+
+(* ---------------------------------------------------------------------------------------- *)
+(* deadlines of a routed connection *)
+Lemma mx_deliver_unarmed : forall timeout chunks, mx_deliver false timeout chunks = List.concat (map snd chunks).
+Proof. induction chunks as [|[a d] r IH]; simpl; [reflexivity|]. rewrite IH. reflexivity. Qed.
+
+Lemma mx_reads_unarmed : forall timeout ages, mx_reads false timeout ages = Z.of_nat (length ages).
+Proof.
+  induction ages as [|a r IH]; [reflexivity|].
+  change (mx_reads false timeout (a :: r)) with (1 + mx_reads false timeout r). rewrite IH.
+  change (length (a :: r)) with (S (length r)). rewrite Nat2Z.inj_succ. apply Z.add_1_l.
+Qed.
+
+(* a response (or any stream towards the user) of any duration, and requests at any age, pass a connection
+   that was handed over with both deadlines cleared *)
+Theorem mx_clean_transparent : forall ops,
+  mx_handoff_clean ops = true ->
+  (forall timeout chunks, mx_deliver_after ops timeout chunks = Some (List.concat (map snd chunks))) /\
+  (forall timeout ages, mx_reads_after ops timeout ages = Some (Z.of_nat (length ages))).
+Proof.
+  intros ops H. unfold mx_handoff_clean in H. unfold mx_deliver_after, mx_reads_after.
+  destruct (mx_at_handoff ops (false, false)) as [[rd wr]|]; [|discriminate].
+  destruct rd; [discriminate|]. destruct wr; [discriminate|].
+  split; intros; [rewrite mx_deliver_unarmed|rewrite mx_reads_unarmed]; reflexivity.
+Qed.
+
+(* clearing only the read deadline is refused, and a chunk written after the timeout is lost *)
+Example mx_read_only_clear_cuts :
+  mx_handoff_clean [MxArm MxBoth; MxClear MxRead; MxHandoff] = false /\
+  mx_deliver_after [MxArm MxBoth; MxClear MxRead; MxHandoff] 30000 [(10, [x61]); (31000, [x62])] = Some [x61].
+Proof. split; reflexivity. Qed.
+
+(* ---------------------------------------------------------------------------------------- *)
+(* request heads admitted by the vhost HTTP server *)
+Lemma hsv_lookup_reviewed : forall fs,
+  forallb (fun f => ht_str_mem (fst f) hsv_reviewed_fields) fs = true ->
+  ht_lookup "MaxHeaderBytes" fs = None.
+Proof.
+  induction fs as [|[n v] fs IH]; simpl; intro H; [reflexivity|].
+  apply andb_true_iff in H. destruct H as [H1 H2].
+  destruct (String.eqb n "MaxHeaderBytes") eqn:E; [|exact (IH H2)].
+  apply String.eqb_eq in E. subst n. vm_compute in H1. discriminate.
+Qed.
+
+Theorem hsv_literal_ok_sound : forall nlits fs,
+  hsv_literal_ok nlits fs = true ->
+  forall head_bytes, head_bytes <= 1048576 + 4096 -> hsv_head_admitted fs head_bytes = Some true.
+Proof.
+  intros nlits fs H hb Hle. unfold hsv_literal_ok in H. apply andb_true_iff in H. destruct H as [_ H].
+  unfold hsv_head_admitted, hsv_max_header_bytes. rewrite (hsv_lookup_reviewed fs H).
+  f_equal. apply Z.leb_le. exact Hle.
+Qed.
